@@ -4,6 +4,7 @@ import (
 	"context"
 	"errors"
 	"sync"
+	"sync/atomic"
 
 	"github.com/buchgr/bazel-remote/v2/cache"
 
@@ -48,7 +49,8 @@ func (c *diskCache) findMissingCasBlobsInternal(ctx context.Context, blobs []*pb
 	const batchSize = 20
 
 	var cancelContextForFailFast context.CancelFunc = nil
-	cancelledDueToFailFast := false
+	// Set by whichever proxy workers find a miss, read by this goroutine.
+	var cancelledDueToFailFast atomic.Bool
 
 	if failFast && c.proxy != nil {
 		var cancel context.CancelFunc
@@ -57,7 +59,7 @@ func (c *diskCache) findMissingCasBlobsInternal(ctx context.Context, blobs []*pb
 
 		cancelContextForFailFast = func() {
 			// Indicate that we were canceled so that we can fail fast.
-			cancelledDueToFailFast = true
+			cancelledDueToFailFast.Store(true)
 			cancel()
 		}
 	}
@@ -70,7 +72,7 @@ func (c *diskCache) findMissingCasBlobsInternal(ctx context.Context, blobs []*pb
 	for len(remaining) > 0 {
 		select {
 		case <-ctx.Done():
-			if cancelledDueToFailFast {
+			if cancelledDueToFailFast.Load() {
 				return errMissingBlob
 			}
 			return errRequestCancelled
@@ -113,7 +115,7 @@ func (c *diskCache) findMissingCasBlobsInternal(ctx context.Context, blobs []*pb
 				// so check to see if the context has cancelled.
 				select {
 				case <-ctx.Done():
-					if cancelledDueToFailFast {
+					if cancelledDueToFailFast.Load() {
 						return errMissingBlob
 					}
 					return errRequestCancelled
@@ -145,12 +147,12 @@ func (c *diskCache) findMissingCasBlobsInternal(ctx context.Context, blobs []*pb
 		verifYield("findmissing.beforeFinalSelect", "")
 		select {
 		case <-ctx.Done():
-			if cancelledDueToFailFast {
+			if cancelledDueToFailFast.Load() {
 				return errMissingBlob
 			}
 			return errRequestCancelled
 		case <-waitCh: // Everything in the waitgroup has finished.
-			if cancelledDueToFailFast {
+			if cancelledDueToFailFast.Load() {
 				// The last proxyCheck to finish was a miss: both channels
 				// were ready and select picked this one.
 				return errMissingBlob
